@@ -54,6 +54,8 @@ def contexts(x, table):
         "link text": ("[" + x + "](/u)\n", lambda e: f'<p><a href="/u">{e}</a></p>\n'),
         "image alt": ("![" + x + "](/u)\n", None),
         "title": ('[x](/u "' + x + '")\n', None),
+        "title (definition)": ('[x][r]\n\n[r]: /u "' + x + '"\n', None),
+        "title (definition, next line)": ('[r]: /u\n  "' + x + '"\n\n[x][r]\n', None),
     }
     if table:
         c["cell"] = ("| " + x + " |\n|---|\n", lambda e: f"<table>\n<thead>\n<tr>\n<th>{e}</th>\n</tr>\n</thead>\n</table>\n")
@@ -71,7 +73,7 @@ def check_one(md, t, form, x, table):
         if name == "image alt":
             m = re.fullmatch(r'<p><img src="/u" alt="(.*)"( /)?></p>\n', out, flags=re.S)
             ok = bool(m) and m.group(1) == e
-        elif name == "title":
+        elif name.startswith("title"):
             m = re.fullmatch(r'<p><a href="/u" title="(.*)">x</a></p>\n', out, flags=re.S)
             ok = bool(m) and m.group(1) == e
         else:
@@ -147,7 +149,7 @@ def run(ctx) -> int:
     cov = proof_cov("C09", proofs, ["the context theorems (inline_esc, para_ctx, alt_ctx, title_ctx ...) are not proved yet: the contexts are decided on the implementation in this run (partial)"])
     cov.update({
         "evaluations": n_run + count["n"], "distinct_nontrivial": len(set(lines)) + count["n"],
-        "rule": "t over printable ASCII incl. all 32 punctuation characters, inner spaces/tabs, non-ASCII letters/punctuation/blanks/format characters, (backslash form) control characters; trimmed; esc(t) = backslash before each ASCII punctuation, ref(t) = decimal/hex/named character references; 7 contexts (paragraph, heading, emphasis, link text, image alt, link title, table cell) x commonmark, js-default, commonmark+table+strikethrough; expected output is exactly escapeHtml(t) in place",
+        "rule": "t over printable ASCII incl. all 32 punctuation characters, inner spaces/tabs, non-ASCII letters/punctuation/blanks/format characters, (backslash form) control characters; trimmed; esc(t) = backslash before each ASCII punctuation, ref(t) = decimal/hex/named character references; contexts (paragraph, heading, emphasis, link text, image alt, link title inline and in a reference definition, table cell) x commonmark, js-default, commonmark+table+strikethrough; expected output is exactly escapeHtml(t) in place",
         "samples": [{"t": "a*b &", "esc": esc_form("a*b &")}, {"src": cases[0][2]}],
         "traces_validated_against_impl": n_run, "implementation_texts": count["n"], "known_finding_hits": count["known"],
         "in_kernel_cases": kn, "in_kernel_mismatches": len(kbad), "disagreements": len(disagreements),
